@@ -2,8 +2,8 @@ CONSTANTS
  Space = "none"
  GenMode = "rand"
  Scenarios <- SpaceScns
- Anchoring = "asis"
- PlatMatch = "asis"
+ Anchoring = "fixed"
+ PlatMatch = "fixed"
  Chars <- CharsDef
  NameOrder <- NameOrderDef
 INIT GInit
